@@ -180,7 +180,9 @@ func (e *Exec) frameObligations(fr *Frame, exit *State, exitGuard string, envEnt
 				if loc.key == "" {
 					a.whole = true
 				} else {
-					a.refs = append(a.refs, location{ref: loc.key})
+					kl := loc
+					kl.comps = nil
+					a.refs = append(a.refs, kl)
 				}
 			}
 		case "heap":
@@ -216,6 +218,15 @@ func (e *Exec) frameObligations(fr *Frame, exit *State, exitGuard string, envEnt
 			}
 		}
 		a := allow[name]
+		if strings.HasPrefix(name, "$g$") {
+			if gv, ok := e.P.Spec.Ghosts[strings.TrimPrefix(name, "$g$")]; ok && gv.Monotone {
+				ks, _, _ := arrayParts(srt)
+				k := e.Out.Fresh("mono$k", ks)
+				e.Out.AddObl(&Obligation{Name: fmt.Sprintf("%s/monotone:%s%s", FuncKey(fr.fn), gv.Name, suffix), Func: FuncKey(fr.fn), Kind: "frame", Label: gv.Name,
+					Text: "the grow-only ghost set " + gv.Name + " never loses an element", Src: ctr.Src,
+					Formula: Imp(And(exitGuard, Sel(entryV, k)), Sel(exit.H[name], k)), Inputs: e.inputTerms(fr)})
+			}
+		}
 		if a != nil && a.whole {
 			continue
 		}
@@ -230,7 +241,7 @@ func (e *Exec) frameObligations(fr *Frame, exit *State, exitGuard string, envEnt
 			var ex []string
 			if a != nil {
 				for _, l := range a.refs {
-					ex = append(ex, Not(Eq(k, l.ref)))
+					ex = append(ex, Not(l.member(k, "")))
 				}
 			}
 			formula = Imp(And(ex...), Eq(Sel(exit.H[name], k), Sel(entryV, k)))
@@ -246,10 +257,11 @@ func (e *Exec) frameObligations(fr *Frame, exit *State, exitGuard string, envEnt
 				i := e.Out.Fresh("frame$i", k2s)
 				if a != nil {
 					for _, l := range a.refs {
-						if l.idx == "" {
-							conds = append(conds, Not(Eq(r, l.ref)))
-						} else {
-							conds = append(conds, Not(And(Eq(r, l.ref), Eq(i, l.idx))))
+						conds = append(conds, Not(l.member(r, i)))
+						if l.lo != "" && l.off != "" && l.off != "0" {
+							// a valid fact (idx o j = o + j) that names the index in the slice's own index space,
+							// so that invariants written over x[j] can be instantiated at this element
+							conds = append(conds, Eq(i, "(idx "+l.off+" (- "+i+" "+l.off+"))"))
 						}
 					}
 				}
@@ -267,7 +279,7 @@ func (e *Exec) frameObligations(fr *Frame, exit *State, exitGuard string, envEnt
 			} else {
 				if a != nil {
 					for _, l := range a.refs {
-						conds = append(conds, Not(Eq(r, l.ref)))
+						conds = append(conds, Not(l.member(r, "")))
 					}
 				}
 				formula = Imp(And(conds...), Eq(Sel(exit.H[name], r), Sel(entryV, r)))
